@@ -3,6 +3,7 @@ FILE *OUT; uint64_t RNG;
 struct cmd { const char *name; int (*fn)(int, char **); };
 static struct cmd cmds[] = {
   {"c01", cmd_c01},
+  {"c11", cmd_c11},
   {NULL, NULL}
 };
 int main(int argc, char **argv) {
